@@ -589,6 +589,7 @@ const vreYang2 = `module vrpresence {
     }
     leaf uni { type union { type string { pattern 'a+'; } type string { pattern 'b+'; } } }
     leaf-list tags { type string { length "1..3"; } }
+    leaf-list ptags { type string { pattern "a+"; } }
     container mc {
       leaf other { type string; }
       choice c7 {
@@ -1305,7 +1306,10 @@ func TestVerifReplaySchema2Validation(t *testing.T) {
 		{"leaf-list of leafrefs holding a value without a target", nil, []pv{{[]string{"cons", "refs"}, ll("ghost")}}, false, "leaflist_leafref_is_checked"},
 		{"must on a list that refers to a child leaf of the entry, satisfied", nil, []pv{{[]string{"cons", "tenant", "t1", "name"}, str("t1")}, {[]string{"cons", "tenant", "t1", "descr"}, str("fine")}}, true, "must_on_a_list_is_per_entry"},
 		{"union of two pattern-restricted strings, value matches neither", nil, []pv{{[]string{"cons", "uni"}, str("zzz")}}, false, "union_member_restrictions_are_checked"},
-		{"leaf-list of strings with a length restriction, an entry too long", nil, []pv{{[]string{"cons", "tags"}, ll("toolong")}}, false, "leaflist_entry_restrictions_are_checked"},
+		{"leaf-list of strings with a length restriction, an entry too long", []string{"(*tree.sharedEntryAttributes).validateLength"}, []pv{{[]string{"cons", "tags"}, ll("ok", "toolong")}}, false, ""},
+		{"leaf-list of strings with a length restriction, every entry within", []string{"(*tree.sharedEntryAttributes).validateLength"}, []pv{{[]string{"cons", "tags"}, ll("ok", "abc")}}, true, ""},
+		{"leaf-list of strings with a pattern, an entry that does not match", []string{"(*tree.sharedEntryAttributes).validatePattern"}, []pv{{[]string{"cons", "ptags"}, ll("aaa", "zzz")}}, false, ""},
+		{"leaf-list of strings with a pattern, every entry matches", []string{"(*tree.sharedEntryAttributes).validatePattern"}, []pv{{[]string{"cons", "ptags"}, ll("aaa", "a")}}, true, ""},
 		{"must \"../flag = 'false'\" with the boolean leaf set to false", nil, []pv{{[]string{"val", "flag"}, &sdcpb.TypedValue{Value: &sdcpb.TypedValue_BoolVal{BoolVal: false}}}, {[]string{"val", "dep"}, str("x")}}, true, "boolean_leaf_compares_as_its_text"},
 		{"mandatory choice with one case filled", []string{"(*tree.sharedEntryAttributes).validateMandatory", "(*tree.sharedEntryAttributes).validateMandatoryWithKeys"}, []pv{{[]string{"cons", "mc", "other"}, str("o")}, {[]string{"cons", "mc", "x1"}, str("x")}}, true, ""},
 		{"mandatory choice with the other case filled", []string{"(*tree.sharedEntryAttributes).validateMandatory", "(*tree.sharedEntryAttributes).validateMandatoryWithKeys"}, []pv{{[]string{"cons", "mc", "x2"}, str("x")}}, true, ""},
